@@ -107,7 +107,13 @@ impl<F: FieldElement, const SEED_SIZE: usize> ParameterizedDecode<ShareDecodingP
     ) -> Result<Self, CodecError> {
         match decoding_parameter {
             ShareDecodingParameter::Leader(share_length) => {
-                let mut data = Vec::with_capacity(*share_length);
+                // Size the allocation by what the remaining input can hold, not by the length
+                // the decoding parameter declares.
+                let remaining = bytes
+                    .get_ref()
+                    .len()
+                    .saturating_sub(usize::try_from(bytes.position()).unwrap_or(usize::MAX));
+                let mut data = Vec::with_capacity((*share_length).min(remaining / F::ENCODED_SIZE));
                 for _ in 0..*share_length {
                     data.push(F::decode(bytes)?)
                 }
